@@ -171,7 +171,7 @@ func TestC09(t *testing.T) {
 		t.Fatalf("%s", msg)
 	}
 
-	r.Rapid(t, "mutants", vf.N(260, 20000), func(t *rapid.T) {
+	r.Rapid(t, "mutants", vf.N(520, 20000), func(t *rapid.T) {
 		m, tree := genC09Base(t)
 		frame, spans := tree.Bytes()
 		first, hdr, body, _ := ref.Split(frame)
